@@ -5,6 +5,7 @@ import (
 	"go/token"
 	"go/types"
 	"math"
+	"strings"
 
 	"golang.org/x/tools/go/ssa"
 )
@@ -462,4 +463,143 @@ func deferredStoreGuarded(an *ssa.Function, fv *ssa.FreeVar, st *ssa.Store) bool
 		}
 	}
 	return false
+}
+
+// ---- C12-F1 / C13-R2: lookups of lake metadata are never served from a time-bounded cache.
+//
+// journal.Store keeps the last loaded table.  load() compares the cached position with the HEAD
+// it reads from storage on every call, so a table served after load() is current.  Store.Lookup
+// instead trusts the table for a second after the last load: a name resolved through it can miss
+// a commit that was acknowledged to another handle.  Two conditions: (a) nobody calls
+// Store.Lookup; (b) every other method that reads the table has gone through load() first.
+func runJournalFreshness(c *Ctx, rule string) {
+	p := c.P
+	c.Rule(rule, "metadata lookups read the journal HEAD: no caller of the time-based journal.Store.Lookup exists, every exported journal.Store method that reads the cached table calls load() first on every path, and load() itself reads HEAD unconditionally")
+	sites := callSitesWhere(p, func(cc *ssa.CallCommon, name string) bool { return name == "(*lake/journal.Store).Lookup" })
+	nsite := 0
+	for _, s := range sites {
+		if strings.HasSuffix(p.Fset.Position(s.ci.Pos()).Filename, "_test.go") {
+			continue
+		}
+		nsite++
+		c.Fail(rule, "(*lake/journal.Store).Lookup called from "+topName(s.fn), s.ci.Pos(), "this lookup is answered from a table that may be up to one second old: a branch or pool name can resolve to the state before a commit that was already acknowledged to another handle (a reader started after the commit does not see it)")
+	}
+	if nsite == 0 {
+		c.OK(rule, "(*lake/journal.Store).Lookup has no callers", token.NoPos, "the time-bounded cache is not used for name or ID resolution")
+	}
+	// (b) readers of s.table
+	n := 0
+	for _, fn := range p.FuncsIn("lake/journal") {
+		if fn.Parent() != nil || fn.Signature.Recv() == nil || namedOf(fn.Signature.Recv().Type()) != "lake/journal.Store" {
+			continue
+		}
+		if !ast_IsExported(fn.Name()) || fn.Name() == "Lookup" {
+			continue
+		}
+		var reads []ssa.Instruction
+		for _, b := range fn.Blocks {
+			for _, in := range b.Instrs {
+				if u, ok := in.(*ssa.UnOp); ok && isFieldLoad(u, "table") {
+					reads = append(reads, u)
+				}
+			}
+		}
+		if len(reads) == 0 {
+			continue
+		}
+		n++
+		var loads []ssa.Instruction
+		for _, ci := range allCalls(fn) {
+			if calleeName(ci.Common()) == "(*lake/journal.Store).load" {
+				loads = append(loads, ci)
+			}
+		}
+		ok := true
+		for _, r := range reads {
+			dom := false
+			for _, l := range loads {
+				if dominates(l, r) {
+					dom = true
+				}
+			}
+			if !dom {
+				ok = false
+				c.Fail(rule, fnName(fn)+" reads the cached table", r.Pos(), "the table is read on a path that has not called load(): the answer can predate commits acknowledged to other handles")
+			}
+		}
+		if ok {
+			c.OK(rule, fnName(fn)+" reads the cached table", fn.Pos(), "after load()")
+		}
+	}
+	// (c) load reads HEAD first, unconditionally
+	if ld := p.Func("(*lake/journal.Store).load"); ld == nil {
+		c.Undecided(rule, "(*lake/journal.Store).load", "anchor does not resolve")
+	} else {
+		var rh ssa.Instruction
+		for _, ci := range allCalls(ld) {
+			if calleeName(ci.Common()) == "(*lake/journal.Queue).ReadHead" {
+				rh = ci
+			}
+		}
+		if rh == nil || rh.Block() != ld.Blocks[0] {
+			c.Fail(rule, "(*lake/journal.Store).load reads HEAD", ld.Pos(), "load() does not read the journal HEAD unconditionally on entry: a cached table can be returned without consulting storage")
+		} else {
+			c.OK(rule, "(*lake/journal.Store).load reads HEAD", rh.Pos(), "ReadHead in the entry block")
+		}
+	}
+	if n < 3 {
+		c.Undecided(rule, "journal.Store readers", "fewer than 3 table-reading methods found ("+sprint(n)+")")
+	}
+}
+
+func ast_IsExported(name string) bool { return name != "" && name[0] >= 'A' && name[0] <= 'Z' }
+
+// ---- C16-B2: while seek-index entries are written, object.Max is the last key written.
+//
+// flushSeekIndex derives the upper end of a seek entry from w.object.Max ("last key written")
+// and swaps the pair itself for descending pools.  The final Min/Max swap of Close gives
+// object.Max another meaning (largest key), so it must come after the last flush.
+func runSeekIndexMaxMeaning(c *Ctx, rule string) {
+	p := c.P
+	c.Rule(rule, "object.Max keeps meaning `last key written` for as long as seek-index entries are written: no assignment to the object's Min/Max (the descending-order swap of Close) can be followed by a flushSeekIndex on any path")
+	n := 0
+	for _, fn := range p.FuncsIn("lake/data") {
+		if fn.Signature.Recv() == nil || namedOf(fn.Signature.Recv().Type()) != "lake/data.Writer" {
+			continue
+		}
+		isFlush := func(in ssa.Instruction) bool {
+			ci, ok := in.(ssa.CallInstruction)
+			if !ok {
+				return false
+			}
+			nm := calleeName(ci.Common())
+			return nm == "(*lake/data.Writer).flushSeekIndex" || nm == "(*lake/data.Writer).writeIndex"
+		}
+		for _, b := range fn.Blocks {
+			for _, in := range b.Instrs {
+				st, ok := in.(*ssa.Store)
+				if !ok {
+					continue
+				}
+				fa, ok := st.Addr.(*ssa.FieldAddr)
+				if !ok {
+					continue
+				}
+				f := fieldName(fa.X.Type(), fa.Field)
+				if (f != "Min" && f != "Max") || namedOf(fa.X.Type()) != "lake/data.Object" {
+					continue
+				}
+				n++
+				construct := fnName(fn) + " assigns object." + f
+				if hit := reachAvoiding(fn, st, func(ssa.Instruction) bool { return false }, isFlush); hit != nil {
+					c.Fail(rule, construct, st.Pos(), "after this assignment a seek-index entry can still be flushed ("+p.Pos(hit.Pos())+"): the entry's range is computed from a Max that no longer is the last key written, so for descending pools the trailing entry gets the object's largest key as its lower bound and the range pruner skips values that match")
+				} else {
+					c.OK(rule, construct, st.Pos(), "no seek-index flush can follow")
+				}
+			}
+		}
+	}
+	if n < 2 {
+		c.Undecided(rule, "lake/data.Writer", "the Min/Max swap was not found ("+sprint(n)+" assignments)")
+	}
 }
